@@ -102,7 +102,9 @@ def input_class(case):
         if ":" not in seed:
             return "valid-" + _norm(seed)
         name = seed.split(":", 1)[1]
-        return "delta-cycle" if "cycle" in name else _norm(name)
+        if "cycle" in name:
+            return "delta-chain-into-cycle" if "tail" in name else "delta-cycle"
+        return _norm(name)
     kind = mut[0]
     if kind == mutfault.APPEND:
         return "appended-tail"
